@@ -154,6 +154,13 @@ def _result_bytes(rt, res):
     return h.hexdigest()
 
 
+def _strip_hon(res):
+    """Drop per-iteration wall-clock lists (third value of the third-order NS solver)."""
+    if isinstance(res, tuple) and len(res) == 3 and isinstance(res[2], list) and res[2] and all(isinstance(x, float) for x in res[2]) and isinstance(res[1], dict):
+        return res[:2]
+    return res
+
+
 def _call(rt, obj, method, prob):
     A4, b4 = prob
     A = rt.q_from4(A4)
@@ -239,15 +246,27 @@ def _mutation_calls(rt):
 def replay_mutation(seed):
     from .. import runtime as rt
     import contextlib
-    for nm, (f, args) in _mutation_calls(rt).items():
-        h0 = [rt.ahash(a) for a in args]
-        try:
-            with contextlib.redirect_stdout(io.StringIO()):
-                f(*args)
-        except Exception as e:
-            return {"failed": True, "call": nm, "what": f"raised {type(e).__name__}: {e}"}
-        if [rt.ahash(a) for a in args] != h0:
-            return {"failed": True, "call": nm, "what": "argument bytes changed"}
+
+    def relayout(a, lay):
+        if isinstance(a, np.ndarray) and a.dtype == np.quaternion and a.ndim == 2 and lay != "C":
+            return rt.q_from4(rt.q_to4(a), lay)
+        return a
+    for nm, (f, args0) in _mutation_calls(rt).items():
+        for lay in ("C", "F", "S"):
+            args = [relayout(a, lay) for a in args0]
+            h0 = [rt.ahash(a) for a in args]
+            try:
+                with contextlib.redirect_stdout(io.StringIO()):
+                    np.random.seed(4242)
+                    r1 = f(*args)
+                    np.random.seed(4242)
+                    r2 = f(*args)
+            except Exception as e:
+                return {"failed": True, "call": nm, "layout": lay, "what": f"raised {type(e).__name__}: {e}"}
+            if [rt.ahash(a) for a in args] != h0:
+                return {"failed": True, "call": nm, "layout": lay, "what": "argument bytes changed"}
+            if _result_bytes(rt, _strip_hon(r1)) != _result_bytes(rt, _strip_hon(r2)):
+                return {"failed": True, "call": nm, "layout": lay, "what": "repeated call differs"}
     return {"failed": False}
 
 
@@ -280,14 +299,35 @@ def bounded(rep: Report, tier, seed):
     b.exhaustive = True
     b.samples.append({"config": "qgmres", "history": ["2x2", "6x6"], "check": "second result == fresh solver's result, byte for byte"})
     b.done()
-    b2 = rep.add_bounded(Bounded("argument_mutation", "one representative call per public entry point (dense, sparse and preconditioned variants)", "sha1 of every argument before/after the call"))
+    b2 = rep.add_bounded(Bounded("argument_mutation_and_repeatability", "one representative call per public entry point (dense, sparse and preconditioned variants), each with C-contiguous, Fortran-ordered and strided argument layouts, each called twice",
+                                 "sha1 of every argument before/after the call; the second call (global seed reset) must return the same bytes as the first"))
     import contextlib
-    for nm, (fn, args) in _mutation_calls(rt).items():
-        def f(fn=fn, args=args):
-            h0 = [rt.ahash(a) for a in args]
-            fn(*args)
-            return None if [rt.ahash(a) for a in args] == h0 else {"what": "argument bytes changed"}
-        b2.case(f"{P}.bounded.mutation.{nm}", (nm,), f, f"argument mutation by {nm}")
+    import quaternion as _q
+
+    def relayout(a, lay):
+        if isinstance(a, np.ndarray) and a.dtype == np.quaternion and a.ndim == 2 and lay != "C":
+            return rt.q_from4(rt.q_to4(a), lay)
+        if isinstance(a, np.ndarray) and a.dtype == float and a.ndim == 2 and lay == "F":
+            return np.asfortranarray(a)
+        return a
+    for nm, (fn, args0) in _mutation_calls(rt).items():
+        for lay in ("C", "F", "S"):
+            args = [relayout(a, lay) for a in args0]
+            if lay != "C" and all(x is y for x, y in zip(args, args0)):
+                continue
+
+            def f(fn=fn, args=args):
+                h0 = [rt.ahash(a) for a in args]
+                np.random.seed(4242)
+                r1 = fn(*args)
+                if [rt.ahash(a) for a in args] != h0:
+                    return {"what": "argument bytes changed"}
+                np.random.seed(4242)
+                r2 = fn(*args)
+                if _result_bytes(rt, _strip_hon(r1)) != _result_bytes(rt, _strip_hon(r2)):
+                    return {"what": "repeating the call (same arguments, same global seed) gave a different result"}
+                return None
+            b2.case(f"{P}.bounded.mutation.{nm}", (nm, lay), f, f"argument mutation / repeatability of {nm} with {lay}-layout arguments")
     b2.samples.append({"call": "QGMRES.solve[left_lu]", "args": "A 4x4, b 4x1"})
     b2.done()
     b3 = rep.add_bounded(Bounded("import_styles", "package import vs flat-module import in two fresh interpreters", "same seeded workload, results compared byte for byte; repeated call repeats the result"))
